@@ -1,0 +1,61 @@
+//go:build verif
+// +build verif
+
+package leaves
+
+import "time"
+
+// Verification hooks for property C17 (binary result encoding round-trips).
+// Add-only, read-only: constructors and getters for the result types whose fields are unexported.
+
+// VerifC17NewBurndownResult builds a BurndownResult including its private fields.
+func VerifC17NewBurndownResult(
+	global DenseHistory, fileHistories map[string]DenseHistory, fileOwnership map[string]map[int]int,
+	peopleHistories []DenseHistory, peopleMatrix DenseHistory, reversedPeopleDict []string,
+	tickSize time.Duration, sampling, granularity int) BurndownResult {
+	return BurndownResult{
+		GlobalHistory:      global,
+		FileHistories:      fileHistories,
+		FileOwnership:      fileOwnership,
+		PeopleHistories:    peopleHistories,
+		PeopleMatrix:       peopleMatrix,
+		reversedPeopleDict: reversedPeopleDict,
+		tickSize:           tickSize,
+		sampling:           sampling,
+		granularity:        granularity,
+	}
+}
+
+// VerifC17BurndownPrivate reads the private fields of a BurndownResult.
+func VerifC17BurndownPrivate(r BurndownResult) (reversedPeopleDict []string, tickSize time.Duration, sampling, granularity int) {
+	return r.reversedPeopleDict, r.tickSize, r.sampling, r.granularity
+}
+
+// VerifC17NewDevsResult builds a DevsResult including its private fields.
+func VerifC17NewDevsResult(ticks map[int]map[int]*DevTick, reversedPeopleDict []string, tickSize time.Duration) DevsResult {
+	return DevsResult{Ticks: ticks, reversedPeopleDict: reversedPeopleDict, tickSize: tickSize}
+}
+
+// VerifC17DevsPrivate reads the private fields of a DevsResult.
+func VerifC17DevsPrivate(r DevsResult) (reversedPeopleDict []string, tickSize time.Duration) {
+	return r.reversedPeopleDict, r.tickSize
+}
+
+// VerifC17NewCouplesResult builds a CouplesResult including its private field.
+func VerifC17NewCouplesResult(
+	peopleMatrix []map[int]int64, peopleFiles [][]int, filesMatrix []map[int]int64, filesLines []int,
+	files []string, reversedPeopleDict []string) CouplesResult {
+	return CouplesResult{
+		PeopleMatrix:       peopleMatrix,
+		PeopleFiles:        peopleFiles,
+		FilesMatrix:        filesMatrix,
+		FilesLines:         filesLines,
+		Files:              files,
+		reversedPeopleDict: reversedPeopleDict,
+	}
+}
+
+// VerifC17CouplesPrivate reads the private field of a CouplesResult.
+func VerifC17CouplesPrivate(r CouplesResult) (reversedPeopleDict []string) {
+	return r.reversedPeopleDict
+}
